@@ -10,7 +10,10 @@
     in parallel (no synchronisation added by the driver), every case in a child process, in the -race build AND in the
     normal build; workloads on disjoint key ranges (everything a goroutine sees of its own keys and the joined contents are
     determined by the sequential spec), on shared keys (per-key consequences of atomicity) and tiny shared histories
-    (SyncMap.merge_search: some merge of the result sequences is a legal sequential history); the whole exported API of
+    (SyncMap.merge_search: some merge of the result sequences is a legal sequential history); TIMED scan histories
+    (goroutines that Range / ToArray / ForEach / Load while others store and delete the same few keys; every operation
+    carries a ticket taken before its call and one taken after its return): ScanCheck.scan_check - every reported pair
+    has a provenance, every stable mapping is reported, no snapshot demanded of a Range; the whole exported API of
     util/sync2/map.go, util/list/concurrent_set.go and util/list/generic_concurrent_set.go is exercised, and the definition
     registry of container/support (GetMetaOrRegister / RegisterMeta / GetMetaByName / GetMetas), which the parallel definition
     scan shares, is a fourth target; every distinct observation is evaluated by Check_C20.stress_check / stress_oracle in Coq."""
@@ -32,7 +35,11 @@ MANIFEST = {
             "(vm_compute), by the Go race detector over generated starts and shutdowns, and by parallel stress runs (goroutines "
             "released together on one shared sync2.Map / ConcurrentSets / generic concurrent set / definition registry, whole "
             "exported API, normal and -race build) whose observations are checked against the sequential spec (disjoint key "
-            "ranges, sequential coda), per-key consequences of atomicity (shared keys) and SyncMap.merge_search (tiny histories)",
+            "ranges, sequential coda), per-key consequences of atomicity (shared keys) and SyncMap.merge_search (tiny histories); "
+            "c20_scan_check_complete: the per-pair provenance / per-key completeness checker for Range, ToArray, ForEach and the "
+            "point observers (ScanCheck.scan_check, no snapshot demanded of a scan) accepts every history that has a sequential "
+            "witness, and is evaluated on timed histories (tickets around every operation) of scanners running against "
+            "goroutines that store and delete the same few keys",
     "design_ref": "DESIGN.md 5 C20",
     "note": "modelled, not verified: Go scheduler, sync.WaitGroup, sync.Mutex, atomicity of sync.Map primitives, Go memory "
             "model happens-before, callee code below the closures (validated dynamically by the race detector)",
@@ -41,7 +48,7 @@ MANIFEST = {
                  "real-parallelism stress runs (child process per scenario, normal and -race build) evaluated by vm_compute oracles",
 }
 
-HEADER = ("From Coq Require Import List Arith Bool Uint63.\nFrom IocVerif Require Import Model.SyncMap Corr.Check_C20.\n"
+HEADER = ("From Coq Require Import List Arith Bool Uint63.\nFrom IocVerif Require Import Model.SyncMap Model.ScanCheck Corr.Check_C20.\n"
           "Import ListNotations.\n")
 
 KF_DIR = os.path.join(vlib.VERIF, "known_findings.d")
@@ -330,6 +337,97 @@ def gen_stress(rng, cid, workload=None, target=None):
     return c
 
 
+
+# ---- timed scans: Range / ToArray / ForEach / Load against concurrent Delete / Store of the same few keys -----------
+
+def gen_scan(rng, cid, target=None, quick=True, scale=3):
+    """ns scanners (mostly full scans, some stopped early, some point reads) and nc churners (store / delete /
+    load-or-store on nk shared keys) released together; nstable further keys are installed at the start and never touched
+    (every full scan has to report them).  Every value stored is unique in the case and never the zero value, so the
+    provenance of a reported pair is decidable; the sets carry no values (0).  The programs are long enough (36-90 scanner
+    operations, 60-180 churner operations) for the goroutines to really run at the same time in a good part of the rounds;
+    the driver reports the `emit` most contended rounds and the rounds its pre-screen flags."""
+    target = target or rng.choice(["map", "map", "map", "cset", "gset"])
+    nk, nstable = rng.choice([1, 2, 2, 3, 4]), rng.choice([0, 1, 1, 2])
+    ns, nc = rng.choice([1, 2, 2]), rng.choice([1, 2, 2, 3])
+    nscan, nchurn = scale * rng.choice([12, 20, 30]), scale * rng.choice([20, 40, 60])
+    ismap = target == "map"
+    val = [0]
+
+    def fresh():
+        val[0] += 1
+        return val[0] if ismap else 0
+
+    keys = list(range(nk))
+    st, rm = ("store", "delete") if ismap else ("put", "remove")
+    init = [[k, fresh()] for k in keys if rng.random() < 0.6] + [[nk + j, fresh()] for j in range(nstable)]
+    progs = []
+    for _ in range(ns):
+        p = []
+        for _ in range(nscan):
+            r = rng.random()
+            if ismap:
+                p.append({"op": "range"} if r < 0.65 else {"op": "rangestop"} if r < 0.75 else
+                         {"op": "load", "k": rng.randrange(nk + nstable)})
+            else:
+                p.append({"op": rng.choice(["toarray", "foreach"])} if r < 0.7 else {"op": "exists", "k": rng.randrange(nk + nstable)})
+        progs.append(p)
+    for _ in range(nc):
+        prof = rng.choice(["flip", "flip", "mix"])
+        p, present = [], {}
+        for _ in range(nchurn):
+            k = rng.choice(keys)
+            if prof == "flip":     # delete what this goroutine stored last, store what it deleted last
+                op = rm if present.get(k, True) else st
+                present[k] = op == st
+            else:
+                op = rng.choice([st, st, rm, rm, "los", "losf", "load"] if ismap else [st, st, rm, rm, "exists"])
+            p.append({"op": op, "k": k, "v": fresh()} if op in ("store", "los", "losf") else {"op": op, "k": k})
+        progs.append(p)
+    return {"id": cid, "kind": "scan", "target": target, "nkeys": nk + nstable, "churn_keys": nk, "stable_keys": nstable,
+            "scanners": ns, "churners": nc, "init": init, "progs": progs, "fin": [], "timed": True,
+            "rounds": 400 if quick else 1000, "emit": 2}
+
+
+def scan_records(c, ob):
+    """the records of one timed observation in the language of the map (Put / Remove are themselves; Exists k is a Load that
+    finds the value 0; ToArray / ForEach are a Range): (op, result, ticket before the call, ticket after the return), and the
+    scans that were stopped early"""
+    ismap = c["target"] == "map"
+    recs, partial = [], []
+    for k, v in c["init"]:
+        recs.append(({"op": "store", "k": k, "v": v} if ismap else {"op": "put", "k": k}, {}, 0, 0))
+    for prog, run in zip(c["progs"], ob["runs"]):
+        for o, r in zip(prog, run or []):
+            i, j = r.get("i", 0), r.get("r", 0)
+            if o["op"] == "rangestop":
+                partial.append((i, j, r.get("p") or []))
+            elif o["op"] == "exists":
+                recs.append(({"op": "load", "k": o["k"]}, {"f": r.get("f", False), "v": 0}, i, j))
+            elif o["op"] in ("toarray", "foreach"):
+                recs.append(({"op": "range"}, r, i, j))
+            else:
+                recs.append((o, r, i, j))
+    recs.append(({"op": "range"}, {"p": ob.get("final") or []}, ob.get("final_i", 0), ob.get("final_r", 0)))
+    return recs, partial
+
+
+def scan_term(k, c, outcome, ob):
+    bad = "CScan %d (mkScan 2 %d [] [])" % (k, c["nkeys"])
+    if outcome != "ok" or ob is None:
+        return bad
+    if len(ob["runs"]) != len(c["progs"]) or any(len(r or []) != len(p) for r, p in zip(ob["runs"], c["progs"])):
+        return bad   # incomplete observation
+    recs, partial = scan_records(c, ob)
+    try:
+        out = s_num(0) + s_num(c["nkeys"])
+        out += s_list(recs, lambda x: s_xr(x[0], x[1]) + s_num(x[2]) + s_num(x[3]))
+        out += s_list(partial, lambda x: s_num(x[0]) + s_num(x[1]) + s_list(x[2], s_pair))
+    except Unencodable:   # a negative / absurd number: an observation outside the model's domain
+        return bad
+    return "CScan %d (TB %s)" % (k, pack(out))
+
+
 def xop_term(o):
     op = o["op"]
     if op == "length":
@@ -464,7 +562,8 @@ def stress_term(k, c, outcome, obs, literal=False):
 
 def stress_payload(c):
     return {"id": c["id"], "target": c["target"], "nkeys": c["nkeys"], "init": c["init"], "progs": c["progs"],
-            "fin": c["fin"], "rounds": c["rounds"] * (c.get("plain_factor", 1) if c.get("build") != "race" else 1)}
+            "fin": c["fin"], "rounds": c["rounds"] * (c.get("plain_factor", 1) if c.get("build") != "race" else 1),
+            "timed": bool(c.get("timed")), "emit": c.get("emit", 0)}
 
 
 # canonical witnesses: D-C20a (two winners), KF-C20c (Range reports k2 without k1; repeated, probabilistic iteration order)
@@ -541,6 +640,7 @@ def evaluate(ctx, bins, cases, tag):
     hists = [c for c in cases if c["kind"] == "hist"]
     races = [c for c in cases if c["kind"] == "race"]
     strs = [c for c in cases if c["kind"] == "stress"]
+    scans = [c for c in cases if c["kind"] == "scan"]
     by_id, terms, sterms = {}, [], []
     if seqs:
         rc, res, raw = vlib.run_json(binp, {"mode": "seq", "seq": seqs}, timeout=600)
@@ -606,12 +706,30 @@ def evaluate(ctx, bins, cases, tag):
                                 "report": o.get("report", ""), "rounds": o.get("rounds", 0),
                                 "distinct_observations": len(o.get("obs") or []), "obs": ob}
                     sterms.append(stress_term(k, c, by_id[k]["outcome"], ob))
+    if scans:
+        # timed scan histories (normal build): one Coq case per reported round; ids follow all the others
+        nxt = max([c["id"] for c in cases] + list(by_id)) + 2
+        rc, res, raw = vlib.run_json(binp, {"mode": "stress", "stress": [stress_payload(c) for c in scans], "par": 4}, timeout=1500)
+        if res is None:
+            raise vlib.GoBuildError("./cmd/c20 (scan run)", raw[-3000:])
+        for c, o in zip(scans, res["outs"]):
+            obs = o.get("obs") or []
+            if o["outcome"] != "ok" or not obs:
+                obs = [None]
+            for ob in obs:
+                k, nxt = nxt, nxt + 1
+                by_id[k] = {"case": c, "outcome": o["outcome"] if (ob or o["outcome"] != "ok") else "crash",
+                            "report": o.get("report", ""), "rounds": o.get("rounds", 0),
+                            "rounds_flagged_by_prescreen": o.get("flagged", 0),
+                            "rounds_with_overlap": o.get("overlap", 0),
+                            "flagged": bool(ob and ob.get("flagged")), "obs": ob}
+                sterms.append(scan_term(k, c, by_id[k]["outcome"], ob))
     defs = {"M": "mismatches", "V": "violations", "NT": "count_nontrivial", "NTI": "nontrivial_ids"}
     # the stress observations are larger terms: their own, smaller shards, evaluated alongside the others
     from concurrent.futures import ThreadPoolExecutor
     with ThreadPoolExecutor(max_workers=2) as ex:
         f1 = ex.submit(vlib.coq_eval_sharded, ctx, "cases_c20_" + tag, HEADER, terms, defs, 120)
-        f2 = ex.submit(vlib.coq_eval_sharded, ctx, "cases_c20s_" + tag, HEADER, sterms, defs, 40) if sterms else None
+        f2 = ex.submit(vlib.coq_eval_sharded, ctx, "cases_c20s_" + tag, HEADER, sterms, defs, 24) if sterms else None
         out = f1.result()
         if f2:
             o2 = f2.result()
@@ -733,6 +851,45 @@ def stress_distribution(by_id):
     return d
 
 
+def scan_distribution(by_id):
+    """volumes of the timed scan stream: scenarios per container, rounds run / reported to Coq / flagged by the driver's
+    pre-screen, operations, full scans / early-stopped scans / point reads, writes and deletes per reported round"""
+    runs = {}
+    for i in by_id:
+        e = by_id[i]
+        if e["case"]["kind"] == "scan":
+            runs.setdefault(e["case"]["id"], []).append(e)
+    d = {"scenarios": len(runs), "by_container": {}, "rounds_run": 0, "rounds_evaluated_by_coq": 0,
+         "rounds_flagged_by_prescreen": 0, "flagged_rounds_evaluated": 0, "rounds_in_which_a_scan_overlapped_a_write": 0,
+         "overlapping_scans_in_evaluated_rounds": 0, "goroutines": {}, "churn_keys": {}, "untouched_keys": {},
+         "operations_per_round": 0, "full_scans_per_round": 0, "stopped_scans_per_round": 0, "point_reads_per_round": 0,
+         "writes_and_deletes_per_round": 0, "outcomes": {}}
+
+    def bump(m, k, n=1):
+        m[k] = m.get(k, 0) + n
+
+    for es in runs.values():
+        c = es[0]["case"]
+        bump(d["by_container"], c["target"])
+        bump(d["goroutines"], str(len(c["progs"])))
+        bump(d["churn_keys"], str(c.get("churn_keys", c["nkeys"])))
+        bump(d["untouched_keys"], str(c.get("stable_keys", 0)))
+        bump(d["outcomes"], es[0]["outcome"])
+        d["rounds_run"] += es[0].get("rounds", 0)
+        d["rounds_flagged_by_prescreen"] += es[0].get("rounds_flagged_by_prescreen", 0)
+        d["rounds_in_which_a_scan_overlapped_a_write"] += es[0].get("rounds_with_overlap", 0)
+        d["overlapping_scans_in_evaluated_rounds"] += sum((e.get("obs") or {}).get("overlap", 0) for e in es)
+        d["rounds_evaluated_by_coq"] += sum(1 for e in es if e.get("obs"))
+        d["flagged_rounds_evaluated"] += sum(1 for e in es if e.get("flagged"))
+        ops = [o["op"] for p in c["progs"] for o in p]
+        d["operations_per_round"] += len(ops)
+        d["full_scans_per_round"] += sum(1 for o in ops if o in ("range", "toarray", "foreach"))
+        d["stopped_scans_per_round"] += sum(1 for o in ops if o == "rangestop")
+        d["point_reads_per_round"] += sum(1 for o in ops if o in ("load", "exists"))
+        d["writes_and_deletes_per_round"] += sum(1 for o in ops if o in ("store", "los", "losf", "delete", "put", "remove"))
+    return d
+
+
 def case_size(c):
     cc = c["case"]
     if cc["kind"] == "seq":
@@ -741,6 +898,8 @@ def case_size(c):
         return (1, sum(len(t["ops"]) for t in cc["threads"]))
     if cc["kind"] == "stress":   # a wrong answer (normal build) before a race report, smaller programs first
         return (3, c.get("outcome") != "ok", sum(len(p) for p in cc["progs"]))
+    if cc["kind"] == "scan":
+        return (4, c.get("outcome") != "ok", sum(len(p) for p in cc["progs"]))
     return (2, cc["n"] + cc["closers"])
 
 
@@ -752,6 +911,7 @@ def run(ctx):
     binrace = vlib.go_build(ctx, "./cmd/c20", out=ctx.wpath("bin_c20_race"), race=True)
     bins = (binp, binrace)
     nseq, nhist, nrace, nstress = (1000, 600, 60, 90) if ctx.quick() else (10000, 5000, 500, 1000)
+    nscan = 18 if ctx.quick() else 150
     cases = []
     if ctx.replay:
         r = json.load(open(ctx.replay))
@@ -775,6 +935,9 @@ def run(ctx):
             sc = gen_stress(ctx.rng, 0, workload=w, target=t)
             for build in ("plain", "race"):
                 cases.append(dict(sc, id=len(cases), build=build))
+        # timed scans against churn; the first ones cover every container
+        for i in range(nscan):
+            cases.append(gen_scan(ctx.rng, len(cases), target=("map", "cset", "gset")[i] if i < 3 else None, quick=ctx.quick()))
     by_id, M, V, NTI, nev = evaluate(ctx, bins, cases, "main")
     kinds = {}
     for i in by_id:
@@ -807,6 +970,8 @@ def run(ctx):
             sc = gen_stress(ctx.rng, 0)
             for build in ("plain", "race"):
                 more.append(dict(sc, id=len(more), build=build))
+        for _ in range(20):
+            more.append(gen_scan(ctx.rng, len(more), quick=ctx.quick()))
         b2, _, V2, _, _ = evaluate(ctx, bins, more, "widen")
         bad = [i for i in V2 if classify_known(b2[i]) is None]
         bad.sort(key=lambda i: case_size(b2[i]))
@@ -862,6 +1027,15 @@ def run(ctx):
                     cands.append(dict(cc, init=[]))
                 if cc["rounds"] < 64 and c.get("outcome") == "ok":
                     cands = [dict(x, rounds=64) for x in cands]
+            elif cc["kind"] == "scan":
+                # fewer goroutines, shorter programs; the failure is probabilistic: more rounds, and a candidate counts
+                # only if a round of it fails again
+                if len(cc["progs"]) > 2:
+                    for g in range(len(cc["progs"])):
+                        cands.append(dict(cc, progs=cc["progs"][:g] + cc["progs"][g + 1:]))
+                if max(len(p) for p in cc["progs"]) > 4:
+                    cands.append(dict(cc, progs=[p[:(len(p) + 1) // 2] for p in cc["progs"]]))
+                cands = [dict(x, rounds=max(x["rounds"], 300), emit=1) for x in cands]
             else:
                 for ti, t in enumerate(cc["threads"]):
                     for oi, o in enumerate(t["ops"]):
@@ -882,9 +1056,9 @@ def run(ctx):
 
     ids = sorted(by_id)
     samples = []
-    for kind in ("seq", "hist", "race", "stress"):
+    for kind in ("seq", "hist", "race", "stress", "scan"):
         ks = [i for i in ids if by_id[i]["case"]["kind"] == kind]
-        if kind == "stress":   # a small one (the evidence file stays readable)
+        if kind in ("stress", "scan"):   # a small one (the evidence file stays readable)
             ks = sorted(ks, key=lambda i: -sum(len(p) for p in by_id[i]["case"]["progs"]))
         samples += [by_id[i] for i in ks[-1:]]
     tpls = {}
@@ -893,6 +1067,7 @@ def run(ctx):
         if t:
             tpls[t] = tpls.get(t, 0) + 1
     stress_dist = stress_distribution(by_id)
+    scan_dist = scan_distribution(by_id)
     cov = {
         "evaluations": nev,
         "distinct_nontrivial": distinct_nt,
@@ -904,11 +1079,18 @@ def run(ctx):
                 "scanners fail in the same pass); stress: G goroutines released together by a spin barrier run generated "
                 "operation lists on one shared sync2.Map / ConcurrentSets / generic concurrent set / definition registry in parallel, each scenario in "
                 "a child process in the normal build and in the -race build, several rounds, one Coq case per distinct "
-                "observation (non-trivial: >= 2 goroutines mutate the container); distinct = distinct scenario descriptions",
+                "observation (non-trivial: >= 2 goroutines mutate the container); scan: timed histories (a ticket from one atomic "
+                "counter before every call and after every return) of scanners (Range / ToArray / ForEach, Ranges stopped early, "
+                "Load / Exists) running in parallel with goroutines that store, delete and load-or-store the same 1-4 keys, values "
+                "unique per operation and never the zero value, plus keys nobody touches; normal build, many rounds per scenario; "
+                "the most contended rounds (most full scans overlapping a write / delete in tickets) and the rounds the driver's own "
+                "copy of the conditions flags are evaluated by "
+                "ScanCheck.scan_check (non-trivial: a full scan overlaps a write or delete in tickets); "
+                "distinct = distinct scenario descriptions",
         "samples": samples,
         "traces_validated_against_impl": kinds.get("hist", 0),
         "input_distribution": {"kinds": kinds, "nontrivial_by_kind": nt_kinds, "hist_templates": tpls,
-                               "stress": stress_dist,
+                               "stress": stress_dist, "timed_scans": scan_dist,
                                "race_scenarios_with_2plus_failing_scanners":
                                    sum(1 for i in by_id if by_id[i]["case"]["kind"] == "race" and len(by_id[i]["case"]["fail_scan"]) >= 2)},
         "footprint": {n: {"vars": [v["name"] for v in f["vars"]], "add_before_go": f["add_before_go"],
@@ -919,6 +1101,9 @@ def run(ctx):
                                     "happens-before are modelled (Conc.v, SyncMap.v), not verified",
                                     "callee code below the goroutine closures is checked dynamically by the race detector only",
                                     "histories are ordered by appends under one mutex, never by wall-clock time",
+                                    "timed scan histories: the tickets come from one atomic counter (before the call / after the "
+                                    "return), so ticket order implies real-time order; of the rounds run only the most contended ones and "
+                                    "those flagged by the driver's copy of the conditions are evaluated in Coq (selection only)",
                                     "stress runs sample the schedules the Go runtime produces on this machine (spin barrier, several "
                                     "rounds, normal and -race build); a verdict never depends on timing: every oracle is a consequence "
                                     "of atomicity that holds for all schedules"])
